@@ -891,16 +891,11 @@ with SqlImpl.impl_store.impl_manager as impl:
 
     @impl(ops.shift)
     def _shift(x, by, empty_value=None):
+        # `by` and `empty_value` are constant parameters and arrive as python values
+        fill = [] if empty_value is None else [sqa.literal(empty_value, type_=x.type, literal_execute=True)]
         if by >= 0:
-            if empty_value is not None and not isinstance(empty_value.type, sqa.types.NullType):
-                return sqa.func.LAG(x, by, empty_value, type_=x.type)
-            else:
-                return sqa.func.LAG(x, by, type_=x.type)
-        if by < 0:
-            if empty_value is not None and not isinstance(empty_value.type, sqa.types.NullType):
-                return sqa.func.LEAD(x, -by, empty_value, type_=x.type)
-            else:
-                return sqa.func.LEAD(x, -by, type_=x.type)
+            return sqa.func.LAG(x, by, *fill, type_=x.type)
+        return sqa.func.LEAD(x, -by, *fill, type_=x.type)
 
     @impl(ops.row_number)
     def _row_number():
